@@ -183,7 +183,9 @@ def dom_stream(ctx, case, x, obs):
     """DOM level of every <value> (phase 8): the model's `ItextOut.outDoms` (C06's mixed channel under the tag `value`
     with the reference table of the survey, `form` attribute added) against the children and attributes of the
     implementation's <value> elements — text chunks verbatim interleaved with one <output value=…/> per ${reference}."""
-    md = ctx.driver.call("itext.doms", survey=x)
+    # phase 8b: `outDomsR` = `outDoms` wherever that was stated (Lean: `C07OutputRep.domEntryR_stated`), plus the values
+    # of elements at or below a repeat, substituted with C03's `Refs.refFor` from the owning element
+    md = ctx.driver.call("itext.doms.rep", survey=x)
     if md["outcome"] != "ok":
         ctx.mismatch("itext.doms outcome differs from itext.model", case, "ok", md["outcome"])
         return
@@ -220,6 +222,11 @@ def dom_stream(ctx, case, x, obs):
                 ctx.count("dom:compared")
                 if n_out:
                     ctx.count("dom:compared-with-output")
+                    if not txm["stated"]:
+                        ctx.count("dom:compared-with-output:repeat-context")
+                        if any(k[0] == "e" and any(a[0] == "value" and a[1].strip().startswith("..") for a in k[2])
+                               for k in d["kids"]):
+                            ctx.count("dom:compared-with-output:relative-path")
                     ctx.count("dom:outputs:" + ("1" if n_out == 1 else "2" if n_out == 2 else ">2"))
 
 
@@ -474,6 +481,52 @@ def dom_directed_cases():
                 out.append({"form": {"survey": base + [{"type": "begin repeat", "name": "r", "label::en": t}, dict(q, name="m"),
                                                         {"type": "text", "name": "q2", "label::en": t2}, {"type": "end repeat"},
                                                         dict(q), sel], "choices": ch}, "kw": {}})
+    out.extend(dom_repeat_cases())
+    return out
+
+
+def dom_repeat_cases():
+    """Phase 8b, seed-independent: texts of elements at or below a repeat whose ${references} name elements of the same
+    repeat (relative paths `../x`, `../../g/x`), of an enclosing or nested repeat, the repeat itself, a group inside it,
+    elements outside every repeat (absolute), unknown names, and the guarded markers — in every text-bearing slot."""
+    texts = [
+        "${q2}", "a ${q2} b ${q0} c", "${m} and ${q2}", "${r}", "${gi} ${qg}", "${qg} < ${q2} & ${q0}", "${qn} ${q2}",
+        "${rn}", "${q3}", "${m}", "${data}", "${nope} ${q2}", "x ${last-saved#q2} y", "${q2}\n${qg}",
+        "indexed-repeat(${q2}, ${r}, 1)", "instance('c')/root/item[name=${q2}]/label", "${dup} ${q2}", "${q2}${q2}",
+    ]
+    slots = ["label", "hint", "guidance_hint", "constraint_message", "required_message"]
+    ch = [{"list_name": "c", "name": "a", "label::en": "A ${q2}", "label::fr": "Af"},
+          {"list_name": "c", "name": "b", "label::en": "B"}]
+    out = []
+    for i, t in enumerate(texts):
+        for j, slot in enumerate(slots):
+            if (i + j) % 2 and i > 6:
+                continue
+            t2 = texts[(i + j + 1) % len(texts)]
+
+            def q(name, tx, tx2):
+                d = {"type": "integer", "name": name, "label::en": "N", "constraint": ". > 0", "required": "yes"}
+                d[f"{slot}::en"] = tx
+                d[f"{slot}::fr" if j % 2 else slot] = tx2
+                return d
+            survey = [
+                {"type": "text", "name": "q0", "label": "Q0"},
+                {"type": "begin group", "name": "h", "label": "H"}, {"type": "text", "name": "dup", "label": "D"},
+                {"type": "end group"},
+                {"type": "begin repeat", "name": "r", "label::en": t2 if slot == "label" else "R"},
+                q("m", t, t2),
+                {"type": "text", "name": "q2", "label::en": "Q2"}, {"type": "text", "name": "dup", "label": "D"},
+                {"type": "begin group", "name": "gi", "label::en": t},
+                q("qg", t2, t), {"type": "select_one c", "name": "sg", "label::en": t},
+                {"type": "end group"},
+                {"type": "begin repeat", "name": "rn", "label::en": t},
+                q("qn", t, t2),
+                {"type": "end repeat"},
+                {"type": "end repeat"},
+                {"type": "begin repeat", "name": "r3", "label": "R3"}, q("q3", t, t2), {"type": "end repeat"},
+                q("n", t, t2),
+            ]
+            out.append({"form": {"survey": survey, "choices": ch}, "kw": {}})
     return out
 
 
